@@ -131,6 +131,9 @@ class MarkerUnion(BaseMarker):
                 common_markers = [
                     marker for marker in self.markers if marker in shared_markers
                 ]
+                if unique_intersection.is_empty() and len(common_markers) == 1:
+                    # nothing but the one shared marker is left: it stands for itself
+                    return common_markers[0]
                 return unique_intersection | MarkerUnion(*common_markers)
 
         return None
